@@ -95,6 +95,25 @@ func recB(title, other string) any {
 	return Rec{other, title}
 }
 
+// recC and recD: two distinct struct types that both have the fields Label and Count, in
+// different order (one property name, different field indexes).
+func recC(label string) any {
+	type Row struct {
+		Label string
+		Count int
+	}
+	return Row{label, len(label)}
+}
+
+func recD(label string) any {
+	type Row struct {
+		Count int
+		Extra string
+		Label string
+	}
+	return Row{len(label), "extra-" + label, label}
+}
+
 // hDrop is a pure Drop: ToLiquid returns a value fixed at construction.
 type hDrop struct{ v any }
 
@@ -183,8 +202,13 @@ func (v *LV) Build(r *Rng) any {
 	case "page":
 		return Page{PageMeta: PageMeta{Sidebar: v.S, Side2: v.S}, Title: "t"}
 	case "rec":
-		if v.R == "b" {
+		switch v.R {
+		case "b":
 			return recB(v.S, "other-"+v.S)
+		case "c":
+			return recC(v.S)
+		case "d":
+			return recD(v.S)
 		}
 		return recA(v.S, "other-"+v.S)
 	case "tm": // values that implement encoding.TextMarshaler
@@ -621,7 +645,7 @@ func GenEnv(r *Rng, mapLo, mapHi int) *Env {
 		// names to different fields
 		l := &LV{T: "arr"}
 		for i, n := 0, r.Range(2, 5); i < n; i++ {
-			l.A = append(l.A, &LV{T: "rec", S: pick(r, words), R: pick(r, []string{"a", "b"})})
+			l.A = append(l.A, &LV{T: "rec", S: pick(r, words), R: pick(r, []string{"a", "b", "c", "d", "c", "d"})})
 		}
 		add("recs2", l)
 	}
@@ -652,7 +676,7 @@ func GenEnv(r *Rng, mapLo, mapHi int) *Env {
 		add("big", big)
 	}
 	add("p", genStruct(r))
-	add("q", &LV{T: "rec", S: pick(r, words), R: pick(r, []string{"a", "b"})})
+	add("q", &LV{T: "rec", S: pick(r, words), R: pick(r, []string{"a", "b", "c", "d"})})
 	d := &LV{T: "drop"}
 	defer func() {
 		if r.Chance(0.15) && len(d.A) == 1 {
